@@ -22,7 +22,7 @@ POPS = ["π1", "π2"]
 
 
 @st.composite
-def prob_specs(draw, names=NAMES, pops=True, do=True, marks=True, cond=True, mixed_worlds=False):
+def prob_specs(draw, names=NAMES, pops=True, do=True, marks=True, cond=True, mixed_worlds=False, reflexive_do=False):
     perm = list(draw(st.permutations(names)))
     k = draw(st.integers(1, len(perm)))
     used, rest = perm[:k], perm[k:]
@@ -38,6 +38,13 @@ def prob_specs(draw, names=NAMES, pops=True, do=True, marks=True, cond=True, mix
         dos = [[n, draw(st.booleans()) if marks else False] for n in sorted(rest[:m])]
     pop = draw(st.sampled_from([None, None, None, *POPS])) if pops else None
     spec = {"t": "P", "ch": [[n, mark()] for n in ch], "pa": [[n, mark()] for n in pa], "do": dos, "pop": pop}
+    if reflexive_do and draw(st.integers(0, 5)) == 0:
+        # the common subscript set written member by member with '@' (not through P[...]), possibly naming one of the
+        # term's own variables (X @ -X next to Y @ -X): prints as P[X](X, Y)
+        spec["do_by_at"] = True
+        if draw(st.booleans()):
+            own = draw(st.sampled_from(ch + pa))
+            spec["do"] = sorted(dos + [[own, draw(st.booleans()) if marks else False]])
     if mixed_worlds and rest and len(ch) + len(pa) >= 2 and draw(st.integers(0, 3)) == 0:
         # level-3 mixing: every variable of the term carries its own subscript set (possibly empty, possibly the same
         # names with different value marks)
@@ -235,6 +242,15 @@ def build_public(s):
         if pa:
             dist = dist.given(pa) if len(ch) == 1 else dist | pa
         builder = PP[Variable(s["pop"])] if s["pop"] else P
+        if s["do"] and s.get("do_by_at"):
+            ints = [+Variable(n) if st_ else -Variable(n) for n, st_ in s["do"]]
+            ch2, pa2 = [v @ ints for v in ch], [v @ ints for v in pa]
+            dist = ch2[0]
+            if len(ch2) > 1:
+                dist = dist.joint(ch2[1:])
+            if pa2:
+                dist = dist.given(pa2) if len(ch2) == 1 else dist | pa2
+            return builder(dist)
         if s["do"]:
             ints = [+Variable(n) if st_ else Variable(n) for n, st_ in s["do"]]
             return builder[ints](dist)
